@@ -241,12 +241,15 @@ Section Spec.
           else admm_loop f (S it) split conv prox x' dual' (Some s))
       end.
 
-    (* `return x, x_split, dual_var`: x_split is unbound when the loop body never ran *)
+    (* `x_split = tl.transpose(x)` before the loop (fix fe4edf7; before it x_split was unbound when the loop body never ran and
+       admm raised UnboundLocalError for n_iter_max = 0): with an inner budget of 0 admm returns its start - x, the split variable
+       consistent with it (s stands for transpose(x_split): x itself), the dual variable - WITHOUT calling proximal_operator: the
+       request is not even validated and nothing is projected *)
     Definition admm (n_iter : nat) split conv prox (x dual : M) : res (M * M * M) :=
       rbind (admm_loop n_iter 0 split conv prox x dual None) (fun r =>
         match r with
         | (x', Some s, d') => Ok (x', s, d')
-        | (_, None, _) => Err
+        | (x', None, d') => Ok (x', x', d')
         end).
 
     (* initialisation: 'svd' / 'random' produce raw factors that are passed through the operator of their mode;
